@@ -651,7 +651,7 @@ def run_job(job, acct):
   # whatever the abort call itself computes from the live test state (descriptions for its log lines) runs while the
   # executor moves on: one preemption between any two lines of it, at every abort position that executes such lines
   if job['via'] == 'thread' and job['template'] in ('plain3', 'group') and not job.get('rerun') and 'cancel' not in job and not job.get('profile'):
-    for k in ks:
+    for k in (ks[::2] if job['stride'] > 1 else ks):
       s1, _, _ = run_case(dict(base, plan={str(k): inj1}), trace=True)
       inner = [kk for kk, tidx, tg in s1.tags if kk > k and tg and tg[0] == 'line' and tg[1] in ('last_run_phase_name', '__str__')]
       for k2 in inner:
